@@ -206,10 +206,24 @@ def borrow(chk, S, into_rule, from_pid: str, select):
         S2 = Session(S.p)
         S2._borrow_cache = cache  # lenders may borrow as well (no cycles in the table)
         cache[from_pid] = lender
+        # The lender is analysed in its own term universe: terms are hash-consed and atoms with the same name share their metadata (array / rank
+        # declarations), so a lender's `atom("u0", array=True)` would otherwise change what the borrower's -- or another lender's -- `atom("u0")` means.
+        # Only the lender's obligations (texts and verdicts) survive; its terms are never mixed with the borrower's.
+        from . import nf as _nf
+
+        snap = (dict(T._TABLE), T._COUNTER[0], dict(_nf._CACHE))
+        T.reset()
+        _nf.reset()
         try:
             mod.run(lender, S2)
         except AnalysisError as e:
             lender.analysis_error(str(e))
+        finally:
+            T._TABLE.clear()
+            T._TABLE.update(snap[0])
+            T._COUNTER[0] = snap[1]
+            _nf._CACHE.clear()
+            _nf._CACHE.update(snap[2])
     n = 0
     for r in lender.rules:
         for o in r.obls:
